@@ -104,6 +104,8 @@ def run(ck):
         dim = rng.randint(2, 3) if h % 3 != 1 else 3
         nb = rng.randint(1, 2)
         depth = rng.randint(0, 3)
+        if h % 5 == 2:
+            nb, depth, dim = 2, max(depth, 1), 3
         hy, _ = bare_hierarchy(heom, numpy, nb, depth, [rng.randint(1, 8) / 64.0 for _ in range(nb)])
         Hm = numpy.zeros((dim, dim))
         for i in range(dim):
@@ -118,6 +120,10 @@ def run(ck):
                     ph = rng.randint(1, 4) / 8.0
                     Hm[i, j] = Hm[i, j] + 1j * ph; Hm[j, i] = numpy.conj(Hm[i, j])
         omega = numpy.array([0.0] + [rng.randint(0, 4) / 4.0] * (dim - 1))
+        if h % 4 == 3:
+            # the rotating-frame reference of the ground state need not be zero (ground-state energy offset, vibrational ground-state block)
+            omega[0] = rng.choice([0.25, 0.5, -0.25])
+            Hm[0, 0] = rng.choice([0.25, 0.5])
         hy.ham = HamStub(Hm.copy(), omega)
         hy.dim = dim
         Vs = numpy.zeros((nb, dim, dim))
@@ -125,6 +131,10 @@ def run(ck):
             Vs[k, 1 + (k % (dim - 1)), 1 + (k % (dim - 1))] = 1.0
         hy.Vs = Vs
         hy.lam = numpy.array([rng.randint(0, 8) / 128.0 for _ in range(nb)])
+        if h % 8 == 3:
+            hy.lam = numpy.zeros(nb)          # no coupling to the baths at all: closed-system dynamics in the frame of the given reference energies
+        if h % 5 == 2 and nb == 2:
+            hy.lam = numpy.array([0.0, rng.randint(1, 8) / 128.0])       # a bath of zero strength listed before one that acts
         hy.kBT = rng.randint(1, 8) / 16.0
         hy.reset_ados()
         dt = rng.choice([0.25, 0.5, 1.0])
@@ -135,7 +145,7 @@ def run(ck):
         a = [rng.randint(-4, 4) / 8.0 for _ in range(dim)]
         b = [rng.randint(-4, 4) / 8.0 for _ in range(dim)]
         psi = numpy.array(a) + 1j * numpy.array(b)
-        psi[0] = 0
+        psi[0] = 0 if h % 4 != 3 else 0.5        # with a ground-state reference in play the state has optical coherences
         if abs(psi).sum() == 0:
             psi[1] = 1.0
         r0 = numpy.outer(psi, psi.conj())
@@ -149,6 +159,19 @@ def run(ck):
         tol.append(1e-9 * max(1.0, float(abs(rhot.data).max())))
         ck.case(("dyn", dim, nb, depth, Lord, Hm.tobytes(), r0.tobytes()), nontrivial=(nb >= 1 and depth >= 1), kind="dyn", depth=depth, order=Lord,
                 sample={"dim": dim, "nbath": nb, "depth": depth, "H": Hm.tolist(), "lam": hy.lam.tolist()} if h == 0 else None)
+        if h % 5 == 2 and nb == 2 and hy.lam[0] == 0.0:
+            # a bath that does not act can be left out: same reduced dynamics as the hierarchy of the second bath alone
+            hy1, _ = bare_hierarchy(heom, numpy, 1, depth, [hy.gamma[1]])
+            hy1.ham = HamStub(Hm.copy(), omega); hy1.dim = dim
+            hy1.Vs = Vs[1:2].copy(); hy1.lam = numpy.array([hy.lam[1]]); hy1.kBT = hy.kBT
+            hy1.reset_ados()
+            rhot1 = heom.KTHierarchyPropagator(ta, hy1).propagate(qr.ReducedDensityMatrix(data=r0.copy()), L=Lord)
+            d1 = float(numpy.abs(rhot1.data - rhot.data).max())
+            ck.resid("bath of zero strength listed first vs left out", d1)
+            if d1 > 1e-10:
+                ck.fail("dyn:zero-strength-bath", "a bath with zero coupling strength listed before another one changes the reduced dynamics "
+                        "(compared with the hierarchy of the second bath alone)", {"H": Hm.tolist(), "depth": depth, "lam": hy.lam.tolist(),
+                                                                                  "gamma": list(map(float, hy.gamma)), "kBT": hy.kBT}, d1, 0)
         tr = numpy.abs(numpy.trace(rhot.data, axis1=1, axis2=2) - numpy.trace(r0)).max()
         he = numpy.abs(rhot.data - numpy.conj(numpy.transpose(rhot.data, (0, 2, 1)))).max()
         sc = max(1.0, float(abs(rhot.data).max()))
